@@ -166,7 +166,10 @@ def rule_double_checked_creation(ctx, f, rid):
             for st in b.blocks[bi]["stmts"]:
                 if st["k"] == "assign" and not st["pl"]["p"] and st["rv"]["k"] == "agg" and st["rv"].get("agg") == "adt" and st["rv"]["adt"].endswith("result::Result") and st["rv"].get("variant") == "Ok":
                     oks.append(peel(_sq._unwrap_payload(b.term_operand(st["rv"]["ops"][0]), built, b)))
-        ret_ok = bool(oks) and all(x == built for x in oks) and all(v in ("Ok", "Err") for v in b.return_variants_ps(ic.bb))
+        # `Ok(vacant.insert(child).clone())`: VacantEntry::insert hands back the stored value, which is the built child
+        stored = peel(ic.result_term()) if ic.matches("VacantEntry::insert") and peel(ic.args[1]) == built else None
+        ret_ok = bool(oks) and all(x == built or (stored is not None and peel(x, transparent=["Clone::clone", "Deref::deref", "DerefMut::deref_mut"]) == stored) for x in oks) \
+            and all(v in ("Ok", "Err") for v in b.return_variants_ps(ic.bb))
     ins_val = ic.args[2] if ic.matches("HashMap::insert") else ic.args[1]
     from pvrules import seqeval as _sq2
     ctx.ob(rid, "get_or_create_metric|returns-inserted", ret_ok and (peel(ins_val) == built or peel(_sq2._unwrap_payload(ins_val, built, b)) == built),
